@@ -77,6 +77,18 @@ class DataDir:
         self.kvs[b'l'] = struct.pack('<I', 0)
         self.kvs[b'R'] = b'\x00'
         self.kvs[b'F' + b'\x07txindex'] = b'1'
+        # every other family of keys a blocks/index database has held over the years (none of them is a block record):
+        # transaction index entries of old releases and of the forks ('t' + txid, the same length as a block key), the pruning
+        # flag, LevelDB-obfuscation key, and keys nobody has defined yet
+        hs = hashlib.sha256(self.path.encode()).digest()
+        self.kvs[b't' + hs] = btc.core_varint(0) + btc.core_varint(8) + btc.core_varint(81)
+        self.kvs[b't' + hs[::-1]] = btc.core_varint(3) + btc.core_varint(300) + btc.core_varint(5)
+        self.kvs[b'F' + b'\x10prunedblockfiles'] = b'0'
+        self.kvs[b'\x0e\x00obfuscate_key'] = b'\x08' + hs[:8]
+        self.kvs[b'B'] = hs
+        self.kvs[b'a' + hs[:7]] = b''
+        self.kvs[b'c' + hs] = hs
+        self.kvs[b'\xff' + hs[:3]] = b'x'
 
     # -- materialise -------------------------------------------------------------------
     def write(self, xor_key=None, name=lambda n: 'blk%05d.dat' % n, plain=False):
